@@ -33,6 +33,8 @@ impl Lat {
             2 => for j in 0..=2 * self.n { for i in 0..=2 * self.n { v.push((57.0 + i as f32 / 2.0, 57.0 + j as f32 / 2.0)); } },
             // half-pixel lattice translated far from the origin (coarser f32 spacing): x by +1000, y by +700
             4 => for j in 0..=2 * self.n { for i in 0..=2 * self.n { v.push((1000.0 + i as f32 / 2.0, 700.0 + j as f32 / 2.0)); } },
+            // coarse lattice of large triangles (hundreds of rows/columns: accumulated stepping error)
+            5 => { let c = [0.0f32, 37.25, 160.5, 321.0]; for &y in &c { for &x in &c { v.push((x, y)); } } },
             // half-pixel lattice with every coordinate also nudged by -1 / +1 ulp (rounding-boundary inputs)
             3 => for j in 0..=2 * self.n { for i in 0..=2 * self.n { for dy in -2i32..=1 { for dx in -2i32..=1 {
                 let nud = |c: f32, d: i32| if c == 0.0 || d == 0 { c } else { f32::from_bits((c.to_bits() as i32 + d) as u32) };
@@ -186,6 +188,8 @@ fn families(quick: bool) -> Vec<(String, Vec<(f32, f32)>, usize, bool)> {
     f.push((format!("half-px N=3 +57"), Lat { kind: 2, n: 3 }.points(), 0, false));
     f.push((format!("half-px N=3 +1000/+700"), Lat { kind: 4, n: 3 }.points(), 0, false));
     f.push((format!("half-px N=3 +1000/+700 offset 0.1"), Lat { kind: 4, n: 3 }.points(), 2, false));
+    f.push(("large triangles on {0,37.25,160.5,321}^2".into(), Lat { kind: 5, n: 0 }.points(), 0, false));
+    f.push(("large triangles on {0,37.25,160.5,321}^2 offset 1/3".into(), Lat { kind: 5, n: 0 }.points(), 1, false));
     f.push((format!("half-px N={} nudged by -2..+1 ulp", if quick { 1 } else { 2 }), Lat { kind: 3, n: if quick { 1 } else { 2 } }.points(), 0, false));
     if !quick {
         f.push(("quarter-px N=3".into(), Lat { kind: 1, n: 3 }.points(), 0, false));
@@ -230,6 +234,11 @@ fn main() {
             rep.merge(par_range(&cfg, n * n * n / stride, |j, r| {
                 let i = j * stride + (j % stride.max(1));
                 let t = tri_of(pts, i.min(n * n * n - 1), *off, *per);
+                if name.starts_with("large") {
+                    // hundreds of thousands of fragments per triangle: two depth assignments, two types
+                    for zi in [5usize, 19] { check_interp::<f32>(t, zi, r, name); check_interp::<(f32, Vec2)>(t, zi, r, name); }
+                    return;
+                }
                 for zi in 0..27 {
                     check_interp::<f32>(t, zi, r, name);
                     if zi % 2 == 0 || !quick { check_interp::<(f32, Vec2)>(t, zi, r, name); }
